@@ -4557,39 +4557,48 @@ func (t *Terminal) Loop() error {
 						// Goroutine 3 is responsible for cancelling running preview command
 						go func(version int64) {
 							timer := time.NewTimer(previewDelayed)
+							// cancelPreview does not block. A request that was enqueued while
+							// this command was being started found nobody listening, so its
+							// cancellation was lost. It is still in the box.
+							superseded := t.previewBox.Peek(reqPreviewEnqueue)
 						Loop:
 							for {
-								select {
-								case <-ctx.Done():
-									break Loop
-								case <-timer.C:
-									t.reqBox.Set(reqPreviewDelayed, version)
-								case immediately := <-t.killChan:
-									if immediately {
-										util.KillCommand(cmd)
-									} else {
-										// We can immediately kill a long-running preview program
-										// once we started rendering its partial output
-										delay := previewCancelWait
-										if rendered.Get() {
-											delay = 0
-										}
-										timer := time.NewTimer(delay)
-										select {
-										case <-timer.C:
-											util.KillCommand(cmd)
-										case <-t.killChan:
-											// Another request while waiting (e.g. fzf is
-											// exiting): no more grace
-											util.KillCommand(cmd)
-										case <-finishChan:
-										}
-										timer.Stop()
+								immediately := false
+								if !superseded {
+									select {
+									case <-ctx.Done():
+										break Loop
+									case <-timer.C:
+										t.reqBox.Set(reqPreviewDelayed, version)
+										superseded = t.previewBox.Peek(reqPreviewEnqueue)
+										continue
+									case immediately = <-t.killChan:
+									case <-finishChan:
+										break Loop
 									}
-									break Loop
-								case <-finishChan:
-									break Loop
 								}
+								if immediately {
+									util.KillCommand(cmd)
+								} else {
+									// We can immediately kill a long-running preview program
+									// once we started rendering its partial output
+									delay := previewCancelWait
+									if rendered.Get() {
+										delay = 0
+									}
+									timer := time.NewTimer(delay)
+									select {
+									case <-timer.C:
+										util.KillCommand(cmd)
+									case <-t.killChan:
+										// Another request while waiting (e.g. fzf is
+										// exiting): no more grace
+										util.KillCommand(cmd)
+									case <-finishChan:
+									}
+									timer.Stop()
+								}
+								break Loop
 							}
 							timer.Stop()
 							reapChan <- true
